@@ -752,6 +752,10 @@ pub fn run_c17(ctx: &Ctx) -> i32 {
             None,
         ),
         (Cfg::Phys, vec![], vec![], vec![2, 3], None),
+        // three levels: an error crosses two adapters (and three path layers) on its way up
+        (Cfg::alt(ov.clone(), "/Z"), vec![], vec![], vec![2], None),
+        (Cfg::Ov(vec![Cfg::alt(Cfg::Mem, "/Z"), Cfg::Mem]), vec![], vec![], vec![2], None),
+        (Cfg::alt(Cfg::alt(Cfg::Mem, "/Z"), "/Y"), vec![], vec![], vec![2], None),
     ];
     if thorough {
         plans.push((Cfg::Mem, vec![], vec![], vec![4], Some(3)));
